@@ -473,7 +473,7 @@ fn replay(ctx: &Ctx, _engine: &str, case: &Value) -> CaseResult {
 pub static C07: PropDef = PropDef {
     id: "C07",
     level: "fault_enumeration",
-    rule: "for a configuration (stdin/stdout/stderr in {None, Pipe, File} plus the Merge forms, detached on/off, cwd, setuid+setgid (to 0), setpgid, command with slash / via PATH) a dry run counts the calls the crate makes of each kind: parent side pipe, fcntl(F_GETFD/F_SETFD), fork; child side chdir, dup2, setuid, setgid, setpgid, exec. Then every (kind, k) is failed once with an errno drawn from a list of 20 (three of them above 255, up to the kernel maximum 4095; EINTR, EBADF and ECHILD, which the parent could mistake for conditions of its own, included), and eight real causes are applied (missing program, no x bit, directory, text file without interpreter, missing / non-directory / over-long cwd, name missing on PATH). Quick = 128 random configurations, thorough = all 1056. Oracle: no fault -> Ok(Popen) and the helper's report exists (the image really started); fault -> Err(IoError) carrying the failing step's errno, no report, waitpid(-1) = ECHILD, descriptor table identical to before the call (the config's own files count as the attempt's). Non-trivial = a fault was injected or a real cause applied; distinct = distinct (configuration, fault) pairs.",
+    rule: "for a configuration (stdin/stdout/stderr in {None, Pipe, File} plus the Merge forms, detached on/off, cwd, setuid+setgid (to 0), setpgid, command with slash / via PATH) a dry run counts the calls the crate makes of each kind: parent side pipe, fcntl(F_GETFD/F_SETFD), fork; child side chdir, dup2, setuid, setgid, setpgid, exec. Then every (kind, k) is failed once with an errno drawn from a list of 20 (three of them above 255, up to the kernel maximum 4095; EINTR, EBADF and ECHILD, which the parent could mistake for conditions of its own, included), and eight real causes are applied (missing program, no x bit, directory, text file without interpreter, missing / non-directory / over-long cwd, name missing on PATH). Quick = 128 random configurations, thorough = all 1056. Oracle: no fault -> Ok(Popen) and the helper's report exists (the image really started); fault -> Err(IoError) carrying the failing step's errno, no report, waitpid(-1) = ECHILD, descriptor table identical to before the call (the config's own files count as the attempt's). Non-trivial = a fault was injected or a real cause applied; distinct = distinct (configuration, fault) pairs. Every configuration also starts with a failing launch (missing program) made as the very first launch of a fresh thread, so that nothing the library keeps per thread has been set up by an earlier successful launch.",
     assumptions: &["faults are injected at the libc boundary by link-time interposition, in the parent and (through inherited statics) in the forked child", "setuid/setgid are exercised with id 0 (a no-op as root) so that the calls exist and can be failed"],
     engines: "real",
     workers: |_| 16,
